@@ -892,5 +892,5 @@ func c01queueClearedOnSwitch(c *Ctx) {
 			}
 		}
 	}
-	R.Min("R01.10", "snapshot installations", n, 2)
+	R.Min("R01.10", "snapshot installations", n, 1)
 }
